@@ -121,6 +121,99 @@ SILENT_OK = [
 DECL_BOOKKEEPING = {"ButtonDecl", "ServoDecl", "PotentiometerDecl", "LCDDecl", "LedDecl", "BuzzerDecl", "RGBLedDecl", "UltrasonicDecl", "DCMotorDecl", "LCDTick"}
 
 
+def _guards_of(body, pred, conds=()):
+    """[(statement, tuple of (condition expr, truth))] for every statement in ``body`` satisfying pred; a `continue`/`return`/
+    `break` earlier in a block makes the rest of the block conditional on the negation of its guard"""
+    out = []
+    cur = list(conds)
+    for st in body:
+        k = st["k"]
+        if pred(st):
+            out.append((st, tuple(cur)))
+        if k == "block":
+            out += _guards_of(st["body"], pred, cur)
+        elif k == "if":
+            out += _guards_of(st["then"], pred, cur + [(st["cond"], True)])
+            if st["else"]:
+                out += _guards_of(st["else"], pred, cur + [(st["cond"], False)])
+            ends = lambda b: bool(b) and b[-1]["k"] in ("continue", "return", "break")
+            if ends(st["then"]) and not st["else"]:
+                cur = cur + [(st["cond"], False)]
+        elif k in ("for", "while"):
+            out += _guards_of(st["body"], pred, cur + [(st["cond"], True)])
+    return out
+
+
+def rule_list_helpers(cx, rid):
+    """Python list semantics of the generated helpers, clause by clause, on the clang AST of the helper templates"""
+    from . import c09
+    em = mod("transpile/emitter.py")
+    fns, _snip, names = c09.list_helpers(em)
+    where = (em.rel, em.const("LIST_HELPER_SNIPPET").lineno)
+    r = cx.rule(rid, "the list helpers have Python's list semantics: append copies every element in place and adds one at the end; remove deletes the first equal element only (elements are dropped by position, never by value) and shrinks by one; indexing maps a negative index to index+len; len is the element count", floor=9)
+
+    def generic(name):
+        fl = [f for f in fns.get(name, []) if any("T" in (t or "").replace("__redu_list<T>", "T") for _n, t in f.get("params", []))]
+        if not fl:
+            raise AnalysisError(f"list helper {name} not found")
+        return fl
+
+    uses = lambda e, var: any(s_[0] == "var" and s_[1] == var for s_ in cxx.sub_exprs(e))
+    is_buf_store = lambda st: st["k"] == "expr" and st["e"][0] == "assign" and st["e"][2][0] == "index" and st["e"][2][1][0] == "var"
+    size_changes = lambda body: [show(st["e"]) for st in all_stmts(body) if st["k"] == "expr" and st["e"][0] in ("pre", "post", "assign") and show(st["e"][2]) == "list.size"]
+
+    # remove ------------------------------------------------------------------------------------
+    for f in generic("__redu_list_remove"):
+        body = f["body"]
+        loops = [st for st in all_stmts(body) if st["k"] in ("for", "while")]
+        copy_stores = [(st, g) for st, g in _guards_of(body, is_buf_store) if any(s_[0] == "member" and s_[2] == "data" for s_ in cxx.sub_exprs(st["e"][3]))]
+        if not copy_stores:
+            raise AnalysisError("__redu_list_remove: no element copy into a new buffer found (helper rewritten: re-confirm its semantics)")
+        for st, g in copy_stores:
+            by_value = [show(c) for c, _t in g if uses(c, "value")]
+            r.check(not by_value, "remove/elements-dropped-by-position", where, f"`{show(st['e'])}` is guarded by {by_value}: whether an element survives depends on its value, so every equal element is deleted, not only the first (Python's list.remove deletes one)")
+        # first match: the statement recording the found position is followed by a break / return in the same block
+        rec = []
+        for lp in loops:
+            for st, g in _guards_of(lp["body"], lambda s_: s_["k"] == "expr" and s_["e"][0] == "assign" and s_["e"][2][0] == "var" and s_["e"][3] == ("var", (lp.get("init") or [{}])[0].get("name")), ()):
+                if any(uses(c, "value") for c, _t in g):
+                    rec.append((lp, st))
+        if not rec:
+            raise AnalysisError("__redu_list_remove: the search for the element's position was not recognised")
+        for lp, st in rec:
+            blk = [b for b in all_stmts(lp["body"]) if b["k"] == "if" and any(x is st for x in b["then"])]
+            ok = bool(blk) and blk[0]["then"][-1]["k"] in ("break", "return")
+            r.check(ok, "remove/search-stops-at-first-match", where, f"after `{show(st['e'])}` the search continues: the position recorded is the last match, Python removes the first")
+        sc = size_changes(body)
+        r.check(sc in (["--list.size"], ["list.size--"], ["list.size -= 1"]), "remove/shrinks-by-one", where, f"size updates in remove: {sc}")
+
+    # append ------------------------------------------------------------------------------------
+    for f in generic("__redu_list_append"):
+        body = f["body"]
+        stores = _guards_of(body, is_buf_store)
+        copies = [(st, g) for st, g in stores if any(s_[0] == "member" and s_[2] == "data" for s_ in cxx.sub_exprs(st["e"][3]))]
+        tails = [(st, g) for st, g in stores if st["e"][3] == ("var", "value")]
+        okc = len(copies) == 1 and show(copies[0][0]["e"][2][2]) == show(copies[0][0]["e"][3][2]) and all(not uses(c, "value") for c, _t in copies[0][1])
+        r.check(okc, "append/copies-every-element-in-place", where, f"element copy in append: {[show(st['e']) for st, _g in copies]}")
+        okt = len(tails) == 1 and show(tails[0][0]["e"][2][2]) == "list.size" and not tails[0][1]
+        r.check(okt, "append/new-element-at-the-end", where, f"the appended value is stored by {[show(st['e']) for st, _g in tails]} (must be index list.size, unconditionally)")
+        sc = size_changes(body)
+        r.check(sc in (["++list.size"], ["list.size++"], ["list.size += 1"]), "append/grows-by-one", where, f"size updates in append: {sc}")
+
+    # get ---------------------------------------------------------------------------------------
+    for f in generic("__redu_list_get"):
+        body = f["body"]
+        rets = [st for st in all_stmts(body) if st["k"] == "return"]
+        adj = [st for st, g in _guards_of(body, lambda s_: s_["k"] == "expr" and s_["e"][0] == "assign" and s_["e"][2] == ("var", "index"))]
+        g_adj = _guards_of(body, lambda s_: s_["k"] == "expr" and s_["e"][0] == "assign" and s_["e"][2] == ("var", "index"))
+        ok = len(rets) == 1 and show(rets[0]["e"]) == "list.data[index]" and len(g_adj) == 1 and show(g_adj[0][0]["e"]) in ("index += (int)list.size", "index += list.size", "index = (index + (int)list.size)") \
+            and [(show(c), t) for c, t in g_adj[0][1]] == [("(index < 0)", True)]
+        r.check(ok, "get/negative-index-counts-from-the-end", where, f"indexing: adjust {[(show(s_['e']), [(show(c), t) for c, t in g]) for s_, g in g_adj]}, return {[show(x['e']) for x in rets]}")
+    lens = [f for f in fns.get("__redu_len", []) if any("__redu_list<T>" in (t or "") for _n, t in f.get("params", []))]
+    r.check(len(lens) == 1 and len(lens[0]["body"]) == 1 and lens[0]["body"][0]["k"] == "return" and show(lens[0]["body"][0]["e"]) == "value.size", "len/list-size", where, "len(list) must be the element count")
+    return r
+
+
 def run(cx):
     pm, em, am = mod(PARSER), mod(EMITTER), mod(ASTPY)
     for m in (pm, em, am):
@@ -348,6 +441,9 @@ def run(cx):
             r.check(norm(ex) == "tmp_names[idx]", "tuple/targets-assigned-from-temporaries", (pm, c), f"`{stmt_key(c)}` under {sorted(cs)}: a target is written directly from a right-hand side; `count, doubled = count + 1, count * 2` would read the already updated count")
     ext = [n for n in walk_local(tb) if isinstance(n, ast.Expr) and norm(n.value) == "nodes.extend(tmp_nodes)"]
     r.check(len(ext) == 1, "tuple/temporaries-emitted-first", (pm, tb), "the temporaries must be emitted before the target assignments")
+
+    # ---- C01-LIST ----------------------------------------------------------------------------
+    rule_list_helpers(cx, "C01-LIST")
 
     # ---- C01-DISPATCH (shared with C07) ------------------------------------------------------
     c07.rule_dispatch(cx, "C01")
